@@ -49,7 +49,8 @@ def be16 (v : Nat) : Bytes := [UInt8.ofNat (v / 256), UInt8.ofNat (v % 256)]
 /-- What `gopacket.NewPacket(quote, LayerTypeSCION)` yields for the offending packet quoted by an
 SCMP error, as far as `getDstPortSCMP` looks at it. -/
 inductive Quote
-  /-- a SCION/UDP layer decodes; its source port -/
+  /-- the quoted SCION header decodes and at least the 8-byte UDP header behind it is there (the
+  UDP payload may be cut anywhere, as routers quote only up to the SCMP size limit); its source port -/
   | udp (src : Nat)
   /-- an SCMP layer decodes with this type; `id` is the identifier of the echo / traceroute
   layer behind it if that layer decodes too -/
